@@ -277,6 +277,48 @@ def entry_point_grids(ctx, seed):
                 ctx.count("entry_point_grid_cases")
 
 
+def queue_finer_than_volume_step(ctx):
+    """the delay + volume simulator with a delay queue whose grid is finer than the volume step (interface dt = 1, queue and
+    reporting step 0.05) and with the two aligned: 0 -> C at rate 4 with a product B after the fixed delay 0.5.  C counts
+    firings, B deliveries: B(t) lies between C(t - tau - 2 steps) and C(t - tau + 2 steps) at every reported time, and the
+    number of firings is the one of a rate-4 process."""
+    from bioscrape.types import Model, Volume
+    from bioscrape.simulator import ModelCSimInterface, ArrayDelayQueue, DelayVolumeSSASimulator
+    from bioscrape.random import py_seed_random
+    K, TAU, H, TEND, SLACK = 4.0, 0.5, 0.05, 30.0, 2
+    for vstep in (H, 1.0, 0.25):
+        for seed in (11, 12):
+            case = {"scenario": "delay+volume simulator, queue step %g, volume step %g" % (H, vstep), "seed": seed}
+            ctx.begin_case(case)
+            py_seed_random(seed)
+            M = Model(reactions=[([], ["C"], "massaction", {"k": K}, "fixed", [], ["B"], {"delay": TAU})], initial_condition_dict={"C": 0, "B": 0})
+            M.py_initialize()
+            sl = M.get_species_list()
+            tp = np.arange(0, TEND + H / 2, H)
+            I = ModelCSimInterface(M)
+            I.py_set_dt(vstep)
+            q = ArrayDelayQueue(np.zeros((1, len(tp) + 5)), H, 0.0)
+            v = Volume(); v.py_set_volume(1.0)
+            res = np.array(DelayVolumeSSASimulator().py_delay_volume_simulate(I, q, v, tp).py_get_result())
+            ctx.evaluated()
+            C, B = res[:, sl.index("C")], res[:, sl.index("B")]
+            s_ = int(round(TAU / H))
+            bad = []
+            for i in range(len(tp)):
+                lo_i, hi_i = i - s_ - SLACK, min(i - s_ + SLACK, len(tp) - 1)
+                lo = C[lo_i] if lo_i >= 0 else 0.0
+                hi = C[hi_i] if hi_i >= 0 else 0.0
+                if not (lo <= B[i] <= hi):
+                    bad.append(i)
+            expect = K * TEND
+            if bad or abs(C[-1] - expect) > 8 * np.sqrt(expect):
+                ctx.violation("delivery-time/queue-finer-than-volume-step", "queue step %g, volume step %g: %d firings (about %d expected); deliveries outside "
+                              "[C(t-tau-2 steps), C(t-tau+2 steps)] at %d of %d reported times (first at t=%s)"
+                              % (H, vstep, C[-1], expect, len(bad), len(tp), float(tp[bad[0]]) if bad else None), case)
+                return
+            ctx.count("queue_vs_volume_step_runs")
+
+
 def sampler_corr(ctx, rng):
     """Delay samplers: the model's draws equal py_normal_rv / py_gamma_rv / py_uniform_rv bit for bit; KS support."""
     from bioscrape.random import py_seed_random, py_normal_rv, py_gamma_rv, py_uniform_rv, py_exponential_rv
@@ -375,6 +417,7 @@ def run(ctx):
                 accounting(ctx, sp2, Th, seeds[0])
     sampler_corr(ctx, rng)
     zero_delay_law(ctx, 3000 if ctx.quick() else 200000, 5000 * ctx.seed + 3)
+    queue_finer_than_volume_step(ctx)
 
 
 def replay(ctx, obj):
